@@ -1272,6 +1272,12 @@ class Interp:
             if op == "==":
                 return v
             return lift(z3.Not(v.t)) if isinstance(v, SBool) else (not v)
+        if self._setlike(l) and self._setlike(r) and not (_plain(l) and _plain(r)):
+            # sets of heap objects: members compare by identity, or by value for frozen dataclasses
+            # (SObj.__eq__/__hash__), exactly what Python's set comparison uses
+            if any(is_symbolic(x) for x in l) or any(is_symbolic(x) for x in r):
+                raise Unsupported(f"comparison {op} of sets with symbolic members")
+            return _PYOPS[op](set(l), set(r))
         if not (_plain(l) and _plain(r)):
             if op == "==":
                 return l is r
